@@ -258,7 +258,11 @@ bool qvector_addfirst(qvector_t *vector, const void *data) {
  * @endcode
  */
 bool qvector_addlast(qvector_t *vector, const void *data) {
-    return vector->addat(vector, vector->num, data);
+    // the position must be read under the lock.
+    vector->lock(vector);
+    bool ret = vector->addat(vector, vector->num, data);
+    vector->unlock(vector);
+    return ret;
 }
 
 /**
@@ -301,16 +305,17 @@ bool qvector_addat(qvector_t *vector, int index, const void *data) {
         return false;
     }
 
+    vector->lock(vector);
+
     //check index
     if (index < 0) {
         index += vector->num;
     }
     if (index > vector->num) {
+        vector->unlock(vector);
         errno = ERANGE;
         return false;
     }
-
-    vector->lock(vector);
 
     //check whether the vector is full
     if (vector->num >= vector->max) {
@@ -787,15 +792,16 @@ bool qvector_resize(qvector_t *vector, size_t newmax) {
  *  - ENOMEM : Memory allocation failure.
  */
 void *qvector_toarray(qvector_t *vector, size_t *size) {
+    vector->lock(vector);
+
     if (vector->num <= 0) {
         if (size != NULL) {
             *size = 0;
         }
+        vector->unlock(vector);
         errno = ENOENT;
         return NULL;
     }
-
-    vector->lock(vector);
 
     void *array = malloc(vector->num * vector->objsize);
     if (array == NULL) {
